@@ -366,7 +366,11 @@ def run_case(spec, ctx):
     feats = models.features(text)
     for v in out["violations"]:
         if not v.get("finding"):
-            F.classify(ID, v, text=v.get("text", text), features=feats, code=out.get("code"))
+            try:
+                vref = RefModel.from_text(v.get("text", text))
+            except Exception:
+                vref = None
+            F.classify(ID, v, text=v.get("text", text), features=feats, code=out.get("code"), ref=vref)
     out["hash"] = models.structural_hash(text)
     out["model_text"] = text
     out["counters"]["constructs"] = {**{"f:" + k: v for k, v in feats["funcs"].items()}, **{"op:" + k: v for k, v in feats["ops"].items()}, **feats["bool_arity"]}
